@@ -493,6 +493,13 @@ def perturb_representation(model: PyModel, t, v, rng, stats=None, fmt="binary"):
         try:
             if t.name == "datetime" and hasattr(v, "numpy_value"):
                 ns = int(v.numpy_value.astype("datetime64[ns]").astype(np.int64))
+                if abs(ns) < 2 * 10 ** 18 and rng.fork("from-components").chance(0.3) and hasattr(type(v), "from_components"):
+                    # the value built anew from its calendar components with the constructor the class offers for that
+                    # ("a basic datetime with nanosecond precision, always in UTC")
+                    d_ = _dt.datetime(1970, 1, 1) + _dt.timedelta(seconds=ns // 10 ** 9)
+                    if stats is not None:
+                        stats["py_datetime_built_with_from_components"] = stats.get("py_datetime_built_with_from_components", 0) + 1
+                    return type(v).from_components(d_.year, d_.month, d_.day, d_.hour, d_.minute, d_.second, ns % 10 ** 9)
                 if ns % 1000 == 0 and abs(ns) < 2 * 10 ** 18 and rng.chance(0.7):
                     if stats is not None:
                         stats["py_datetime_as_datetime.datetime"] = stats.get("py_datetime_as_datetime.datetime", 0) + 1
